@@ -100,6 +100,17 @@ type Wide struct {
 	Bs  []byte
 }
 
+// a named one-byte type: arrays and slices of it are NOT byte arrays / byte slices
+type Level uint8
+
+type WithLevels struct {
+	Raw    [3]byte
+	Levels [3]Level
+	Slice  []Level
+	M      map[string][2]Level
+	P      *[2]Level
+}
+
 type WithAny struct {
 	V any
 	W []any
@@ -138,6 +149,7 @@ var catalogueTypes = []reflect.Type{
 	reflect.TypeOf(WithUnexported{}), reflect.TypeOf(WithDeprecated{}), reflect.TypeOf(Wide{}),
 	reflect.TypeOf(WithAny{}), reflect.TypeOf(WithTime{}), reflect.TypeOf(WithPtrs{}), reflect.TypeOf(WithFunc{}),
 	reflect.TypeOf(time.Time{}), reflect.TypeOf(WithEmbedded{}), reflect.TypeOf(RegPtr(nil)), reflect.TypeOf(WithRegPtr{}),
+	reflect.TypeOf(Level(0)), reflect.TypeOf(WithLevels{}),
 }
 
 var isRegistered = map[reflect.Type]bool{}
